@@ -70,6 +70,8 @@ def ctype_std(em, t):
         nm = 'arr_%s_%d' % (em.elemname(e), nn)
         em.vstd_req.setdefault(nm, ('arr', (e, nn)))
         return 'struct ' + nm
+    if n == 'std::bitset': return 'unsigned long'      # bitset<N>, N <= 64: the bits of an unsigned long
+    if n.startswith('std::bitset<') and n.endswith('::reference'): return '_Bool'      # proxy of a bit that is only read: its value
     if n in ('std::basic_string', 'std::__cxx11::basic_string', 'std::basic_string_view'): return 'ovm_string'
     if n in ('std::basic_ostream', 'std::basic_istream', 'std::basic_ios', 'std::basic_iostream'): return 'ovm_stream'
     if n in ('std::runtime_error', 'std::exception', 'std::logic_error', 'std::bad_alloc', 'std::length_error'): return 'ovm_exception'
@@ -86,6 +88,7 @@ def trivially_copyable_std(em, t):
     if n in ('std::vector', 'std::set'): return False
     if iter_info(em, t) is not None: return True
     if n == 'std::_Bit_reference': return True
+    if n == 'std::bitset' or (n.startswith('std::bitset<') and n.endswith('::reference')): return True
     if n == 'std::pair': return em.is_trivially_copyable(t.args[0]) and em.is_trivially_copyable(t.args[1])
     if n == 'std::array': return em.is_trivially_copyable(t.args[0])
     if n in ('std::basic_string', 'std::__cxx11::basic_string', 'std::basic_string_view', 'std::initializer_list'): return True
@@ -120,6 +123,7 @@ def default_init_std(em, t, lv):
         c = em.ctype(t).replace('struct ', '')
         return '%s_init(&(%s));' % (c, lv)
     if n in ('std::basic_string', 'std::__cxx11::basic_string'): return '%s = ovm_string_empty();' % lv
+    if n == 'std::bitset': return '%s = 0UL;' % lv
     if iter_info(em, t) is not None: return ''
     return None
 
@@ -183,6 +187,12 @@ def construct_std(em, t, lv, e, kind):
     n = t.name
     args = e.get('inner', [])
     c = em.ctype(t).replace('struct ', '')
+    if n == 'std::bitset':
+        real = [a for a in args if a.get('kind') != 'CXXDefaultArgExpr']
+        nb = int(re.sub(r'[uUlL]', '', str(t.args[0])))
+        if nb > 64: em.fail(e, 'std::bitset wider than 64 bits')
+        if not real: return '%s = 0UL;' % lv
+        return '%s = ((unsigned long)(%s)) & %dUL;' % (lv, em.Eval(real[0]), (1 << nb) - 1)
     if n in ('std::vector', 'std::set'):
         if kind == 'default' or not args: return '%s_init(&(%s));' % (c, lv)
         items = il_items(em, args[0])
@@ -302,6 +312,19 @@ def member_call(em, n, cnode, obj, isarrow, args):
             k0 = iter_info(em, em.T_of(real[0]).strip_ref())
             if k0: return '(%s_clear(%s), %s_insert_range_%s(%s, %s, %s))' % (c, objp, c, k0[0], objp, em.Eval(real[0]), em.Eval(real[1]))
         em.fail(n, 'std::%s::%s/%d not modelled' % (ot.name, name, len(real)))
+    if ot.name.startswith('std::bitset<') and ot.name.endswith('::reference') and name.startswith('operator '):
+        return '(*%s)' % objp        # conversion of the bit proxy to bool: the value read
+    if ot.name == 'std::bitset':
+        nb = int(re.sub(r'[uUlL]', '', str(ot.args[0])))
+        o = '(*%s)' % objp
+        if name == 'set' and len(real) == 2:
+            tmp = em.new_temp('unsigned long')
+            return '(*(%s = (unsigned long)(%s), __CPROVER_assert(%s < %d, "vstd-bounds: bitset position in range"), %s = (%s) ? (%s | (1UL << %s)) : (%s & ~(1UL << %s)), %s))' % (tmp, em.Eval(real[0]), tmp, nb, o, em.Eval(real[1]), o, tmp, o, tmp, objp)
+        if name == 'test' and len(real) == 1: return '((%s >> (%s)) & 1UL) != 0' % (o, em.Eval(real[0]))
+        if name in ('to_ulong', 'to_ullong') and not real: return o
+        if name == 'operator[]' and len(real) == 1: return '(((%s >> (%s)) & 1UL) != 0)' % (o, em.Eval(real[0]))
+        if name == 'size': return '%dUL' % nb
+        em.fail(n, 'std::bitset::%s not modelled' % name)
     if ot.name == 'std::array':
         c = em.ctype(ot).replace('struct ', '')
         nn = int(re.sub(r'[uUlL]', '', str(ot.args[1])))
@@ -453,6 +476,8 @@ def operator_call(em, n, rd, args):
         if op in ('operator==', 'operator!='):
             s = '%s_eq(%s, %s)' % (c, addr_of(em.E(args[0])), addr_of(em.E(args[1])))
             return s if op == 'operator==' else '(!%s)' % s
+    if t0.name == 'std::bitset' and op == 'operator[]':
+        return '(((%s >> (%s)) & 1UL) != 0)' % (em.Eval(args[0]), em.Eval(args[1]))
     if t0.name == 'std::_Bit_reference':
         if op == 'operator=':
             rhs = args[1]
